@@ -20,7 +20,7 @@ PKG = 'onsager'
 # the rule, declared here per property, and never a global switch.
 NORMAL_FORM_PROPS = frozenset(['C01', 'C02', 'C04', 'C06', 'C11', 'C12', 'C15', 'C24', 'C27', 'C28'])
 FORMS = ('raw', 'normal', 'inlined')
-INLINED_FORM_PROPS = frozenset(['C07', 'C10', 'C13', 'C14', 'C16', 'C17', 'C18', 'C21', 'C22', 'C23', 'C26', 'C29', 'C31', 'C32', 'C33', 'C34', 'C35', 'C36'])
+INLINED_FORM_PROPS = frozenset(['C07', 'C10', 'C13', 'C14', 'C16', 'C17', 'C18', 'C20', 'C21', 'C22', 'C23', 'C26', 'C29', 'C31', 'C32', 'C33', 'C34', 'C35', 'C36'])
 _NORM_CACHE = {}
 
 
